@@ -1,19 +1,24 @@
 #!/venv/bin/python
-"""tools/adhoc.py <property> <case.json>: run one hand-written case (fresh PRNG schedule) and print what the
-oracle says.  For exploring edge inputs before teaching them to a generator."""
-import json, os, sys
+"""tools/adhoc.py <property> <case.json> [n_schedules]: run one hand-written case under n different seeded
+schedules and print what the oracle says.  For exploring edge inputs before teaching them to a generator."""
+import collections, json, os, sys
 sys.path.insert(0, os.path.dirname(os.path.dirname(os.path.abspath(__file__))))
 os.environ.setdefault("PYTHONHASHSEED", "0")
 from sim import runner
 pid, path = sys.argv[1], sys.argv[2]
+n = int(sys.argv[3]) if len(sys.argv) > 3 else 1
 case = json.load(open(path))
 runner.preload()
-chunks = [(0, {}, [{"idx": 0, "case": case, "choices": None, "keep_log": False}])]
-res = runner.run_jobs(pid, chunks, 1, 120)
-tag, recs, note = res[0]
-if not recs:
-    print("harness:", tag, note)
-for r in recs:
-    for v in r.get("violations", []):
-        print(v["sig"], json.dumps(v.get("detail"))[:600])
-    print("violations:", len(r.get("violations", [])), "nontrivial:", r.get("nontrivial"))
+chunks = [(k, {}, [{"idx": i, "case": case, "choices": None, "keep_log": False, "sstr": "adhoc/%d" % i}
+                   for i in range(k * 25, min(n, (k + 1) * 25))]) for k in range((n + 24) // 25)]
+res = runner.run_jobs(pid, chunks, 16, 300)
+sigs = collections.Counter()
+for tag, recs, note in res:
+    if not recs:
+        print("harness:", tag, note)
+    for r in recs:
+        for v in r.get("violations", []):
+            sigs[v["sig"]] += 1
+            if sigs[v["sig"]] == 1:
+                print(v["sig"], json.dumps(v.get("detail"))[:600])
+print("schedules:", n, "violating sigs:", dict(sigs))
